@@ -11,6 +11,10 @@ COMMON_NOTE = ("Trusted base: Coq 8.16.1 kernel and vm_compute (no native_comput
 
 # property id -> (category, technique, text, note, design_ref)   -- only properties whose check exists
 CLAIMED = {
+ "C01": ("proof", "Coq refinement theorems (code-shaped scatter/gather model = configuration-aligned, up-weighted spec) + in-Coq correspondence on exact rationals",
+         "derived_observable's merge/expand/scale engine is modelled line by line (Obs/Derived.v) and proved to compute, at every configuration of the union, sum_i g_i w_i fluct_i (theorems in props/C01.v, all layouts, no size bound); "
+         "the implementation is run on generated layouts x operator families and Coq decides agreement with both the model and the specification in exact rational arithmetic.",
+         "autograd/numdifftools derivatives of user functions are oracles; the analytic derivative of each overload is checked numerically against independent spec gradients; model tied to obs.py by correspondence (no translator for derived_observable).", "§3 C01"),
  "C20": ("proof", "Coq theorems over AST-regenerated tables (vm_compute on Gaussian rationals, lifted to all of Z) + in-Coq correspondence",
          "Dirac tables, Grid tag table and both epsilon formulas are re-extracted from dirac.py on every run and the Clifford algebra, hermiticity, gamma5, all 16 tag identities and "
          "'epsilon = permutation sign inside the domain, rejected outside' are re-proved over the regenerated terms (the epsilon theorems for ALL integer tuples); the kn vjp lambda is regenerated and proved equal to g*dK_n/dx for every integer order under the Bessel recurrence contract. "
